@@ -1,0 +1,14 @@
+use super::Parser;
+use crate::verif::ParserState;
+
+impl Parser {
+    /// Snapshot of the parser's registers (read-only; `verif` feature only).
+    pub fn verif_state(&self) -> ParserState {
+        ParserState {
+            state: self.state,
+            params: self.params.iter().map(|p| (p.cur_part, p.parts)).collect(),
+            cur_param: self.cur_param,
+            intermediate: self.intermediate,
+        }
+    }
+}
